@@ -23,8 +23,8 @@ made under that module's own mutex, none while holding the receiver's -/
 theorem walk_ok : Extracted.Loader.walkFirst = Loader.walkFirst .fixed ∧
     Extracted.Loader.walkNext = Loader.walkNext .fixed := by decide
 
-/-- `done`: result stored, then `loaded = true` under `m.m`, then `Broadcast` -/
-theorem done_shape_ok : Extracted.Loader.doneShape = Loader.doneShape := by decide
+/-- `done`: result stored, then `loaded = true` under `m.m`, then `Broadcast` (not `Signal`: every sleeper is woken) -/
+theorem done_shape_ok : Extracted.Loader.doneShape = Loader.doneShape .fixed := by decide
 
 /-- `load`: when the module's environment cannot be set up the error is returned through `m.done(nil, err)`, so waiters
 are woken and receive it (D24: it used to be a plain `return nil, err`) -/
